@@ -2,8 +2,8 @@ package props
 
 import (
 	"fmt"
-	"os"
 	"math/rand"
+	"os"
 	"strings"
 
 	"github.com/llir/llvm/ir"
